@@ -17,7 +17,7 @@ LANGS = {'c99': ['-x', 'c', '-std=c99'], 'gnu17': ['-x', 'c', '-std=gnu17'], 'c+
 
 def is_c(lang):
     return not lang.startswith('c++')
-COMMON = ['-fsyntax-only', '-ferror-limit=0', '-Werror=macro-redefined', '-Wno-zero-length-array', '-Wno-c11-extensions',
+COMMON = ['-fsyntax-only', '-ferror-limit=0', '-Werror=macro-redefined', '-Werror=visibility', '-Wno-zero-length-array', '-Wno-c11-extensions',
           '-Wno-c99-extensions', '-Wno-extern-c-compat']
 
 
@@ -49,8 +49,24 @@ def inc_args():
     return ['-I', os.path.join(build.REPO, 'include')]
 
 
+SYSTEM_HEADERS = ['assert.h', 'ctype.h', 'errno.h', 'inttypes.h', 'limits.h', 'stdarg.h', 'stdbool.h', 'stddef.h', 'stdint.h',
+                  'stdio.h', 'stdlib.h', 'string.h', 'endian.h', 'byteswap.h', 'arpa/inet.h', 'netinet/in.h', 'sys/types.h',
+                  'time.h', 'unistd.h']
+_BASE = {}
+
+
+def base_macros(lang):
+    """macros of the compiler and of the C library's headers: they are not facts of the project's headers (which
+    system headers a public header happens to include may change freely)"""
+    if lang not in _BASE:
+        txt = ''.join('#if __has_include(<%s>)\n#include <%s>\n#endif\n' % (h, h) for h in SYSTEM_HEADERS)
+        _BASE[lang] = set(clang(LANGS[lang] + ['-dM', '-E', '-'], txt)[1].split('\n')) | \
+            set(clang(LANGS[lang] + ['-dM', '-E', '-'], '')[1].split('\n'))
+    return _BASE[lang]
+
+
 def macros_of(hdr, lang):
-    base = clang(LANGS[lang] + ['-dM', '-E', '-'], '')[1]
+    base = '\n'.join(base_macros(lang))
     rc, out, err = clang(LANGS[lang] + inc_args() + ['-dM', '-E', '-'], '#include "%s"\n' % hdr)
     if rc != 0:
         return None, err
